@@ -335,7 +335,26 @@ MixinFacts(model) ==
                                  /\ g[2] = m[3]}}
          : m \in {x \in model : x[1] = "mixin"}}
 
-FinalModel(st) == st.model \cup MixinFacts(st.model)
+(* Collectors (post-processing): the endpoint named ".. * <- *" lists endpoints (action statements) and calls; the    *)
+(* tags and attributes of an entry are given to the endpoint it names, and to every call statement of the          *)
+(* application, at any depth, that has the same target and endpoint.  (Values of the same attribute name from two   *)
+(* sources are outside this model: the generator gives collector entries an attribute name nothing else uses.)      *)
+Coll == ".. * <- *"
+CollectorFacts(model) ==
+  LET entries == {c \in model : c[1] = "stmt" /\ c[3] = Coll /\ c[5] \in {"action", "call"}}
+      marks(c) == {a \in model : a[1] \in {"stmt.tag", "stmt.attr"} /\ a[2] = c[2] /\ a[3] = Coll /\ a[4] = c[4]}
+      onEndpoint(c) ==
+        IF c[5] = "action" /\ \E f \in model : f[1] \in {"ep", "event", "sub"} /\ f[2] = c[2] /\ f[3] = c[6]
+          THEN {<<IF a[1] = "stmt.tag" THEN "ep.tag" ELSE "ep.attr", c[2], c[6]>> \o SubSeq(a, 5, Len(a)) : a \in marks(c)}
+          ELSE {}
+      onCalls(c) ==
+        IF c[5] = "call"
+          THEN UNION {{<<a[1], c[2], s[3], s[4]>> \o SubSeq(a, 5, Len(a)) : a \in marks(c)}
+                      : s \in {t \in model : t[1] = "stmt" /\ t[2] = c[2] /\ t[3] # Coll /\ t[5] = "call" /\ t[6] = c[6]}}
+          ELSE {}
+  IN UNION {onEndpoint(c) \cup onCalls(c) : c \in entries}
+
+FinalModel(st) == LET m == st.model \cup MixinFacts(st.model) IN m \cup CollectorFacts(m)
 
 \* Beyond the listed properties: the linter (pkg/parse/linter.go) warns about exactly the calls whose target
 \* application is not declared, or is declared without the called endpoint (simple endpoints; one warning kind per call)
